@@ -15,6 +15,7 @@ EXPLANATION = (
     "(R3 also, shared with C12.R4: no step of a module's tear-down, including the collection of joined tasks' outcomes, depends on the module being active.) "
     '(R7) no decision of the start-up schedule reads the collected errors, and nothing of a module runs between the harnessed callback and the consumption of its outcome. '
     "(R3 also, shared with C09.R4: the restart of a module runs at_sim_start on it again.) "
+    "(R8) non-empty join errors are what ModuleRef::at_sim_end returns; R9) no explicit panic is reachable while a poisoning std lock guard is held in the net layer, outside an audited table (Gate::connect's wiring assertions). "
     "Decides these necessary conditions only; not that healthy modules behave as if the faulty one fell silent.")
 ASSUMPTIONS = ["catch_unwind catches every unwinding panic (panic=unwind build)", "processing elements are simulator-side code, not covered by the statement"]
 
